@@ -20,6 +20,8 @@ def mk_dims(W, letters, lo=1):
 def operands(W, sk):
     D = mk_dims(W, sorted(set(sk["x"]) | set(sk["y"])))
     x = W.array("x", [D[l] for l in sk["x"]])
+    if sk.get("alias"):
+        return D, x, x  # both operands are the very same object
     y = W.array("y", [D[l] for l in sk["y"]])
     return D, x, y
 
@@ -79,6 +81,8 @@ def sk_binop(tier):
     for p in sk_pairs(tier, 3, 5 if os.environ.get("FVC_PROP") == "C01" else 4):
         for op in list(INTERSECT_OPS) + list(UNION_OPS):
             out.append({"op": op, **p})
+            if p["x"] == p["y"] and len(p["x"]) <= 3:
+                out.append({"op": op, **p, "alias": True})  # x op x
     return out
 
 
